@@ -57,6 +57,8 @@ func NewEngine(l *Loaded, eo EntryOpts, rc RunConfig) (*Engine, error) {
 		fnIDs:       map[*ssa.Function]uint64{},
 		redirects:   map[string]*ssa.Function{},
 		initSet:     map[*ssa.Package]bool{},
+		siteCache:   map[string]bool{},
+		pkgDir:      l.PkgDir,
 		verbose:     rc.Verbose,
 		deadline:    rc.Deadline,
 	}
@@ -143,7 +145,8 @@ type entryResult struct {
 		TimeS                       float64
 		Errors                      []string
 	}
-	WallS float64
+	WallS        float64
+	PrepassPaths int
 }
 
 // exploreAll explores every entry with a shared pool of workers; subtrees are
@@ -394,13 +397,53 @@ func main() {
 		if eo.Tier != "both" && eo.Tier != *tier {
 			continue
 		}
-		todo = append(todo, resolveParams(eo, *tier))
+		r := resolveParams(eo, *tier)
+		// iterative context bounding: cheaper passes with fewer preemptions run
+		// first, so that shallow schedule bugs are reported quickly
+		for p := 0; p < r.Preempt; p++ {
+			pre := r
+			pre.Preempt = p
+			pre.Prepass = true
+			pre.Cover = nil
+			todo = append(todo, pre)
+		}
+		todo = append(todo, r)
 	}
 	if len(todo) == 0 {
 		fmt.Fprintf(os.Stderr, "INCONCLUSIVE no entries for property=%s tier=%s\n", *property, *tier)
 		os.Exit(2)
 	}
 	results := exploreAll(l, todo, rc, *workers)
+	// fold pre-passes into their entry
+	{
+		var merged []*entryResult
+		for _, r := range results {
+			if r.Opts.Prepass {
+				continue
+			}
+			merged = append(merged, r)
+		}
+		for _, r := range results {
+			if !r.Opts.Prepass {
+				continue
+			}
+			for _, m := range merged {
+				if m.Opts.Name == r.Opts.Name {
+					m.PrepassPaths += r.Stats.Paths
+					m.Stats.Instrs += r.Stats.Instrs
+					if len(m.Violations) == 0 {
+						m.Violations = append(m.Violations, r.Violations...)
+					}
+					for _, x := range r.Inconclusive {
+						if !strings.HasPrefix(x, "VACUOUS") {
+							m.Inconclusive = append(m.Inconclusive, x)
+						}
+					}
+				}
+			}
+		}
+		results = merged
+	}
 	if *verbose {
 		for _, r := range results {
 			fmt.Fprintf(os.Stderr, "[gosx] %s: %d paths (%d ok, %d infeasible), %d instrs, %d checks, solver %.1fs\n",
@@ -426,7 +469,7 @@ func main() {
 			if *outDir != "" {
 				dir = filepath.Join(*outDir, r.Opts.Property, fmt.Sprintf("%s-%d", r.Opts.Name, len(violLines)))
 				os.MkdirAll(dir, 0o755)
-				writeCounterexample(dir, v, r, lc, *rtNative, splitList(*nativeExtra))
+				writeCounterexample(dir, v, r, lc, *rtNative, splitList(*nativeExtra), l)
 				if !*noReplay {
 					confirmed, detail = replayNative(dir, v, lc)
 					replays++
@@ -536,7 +579,7 @@ func writeEvidence(path, property, tier string, seed int64, l *Loaded, results [
 			"entry": r.Opts.Name, "bounds": r.Opts.Bounds, "params": r.Opts.Params, "preemption_bound": r.Opts.Preempt,
 			"paths": r.Stats.Paths, "paths_completed": r.Stats.PathsOK, "paths_infeasible": r.Stats.Infeasible,
 			"instructions": r.Stats.Instrs, "solver_checks": r.Solver.Checks, "wall_s": round2(r.WallS),
-			"assert_queries": r.Stats.AssertQueries, "budget": r.Opts.Budget,
+			"assert_queries": r.Stats.AssertQueries, "budget": r.Opts.Budget, "paths_in_lower_preemption_prepasses": r.PrepassPaths,
 		})
 	}
 	q["check_sat_total"] = checks
